@@ -6,8 +6,16 @@ Local Open Scope list_scope.
 Fixpoint frames_of (l : list log_entry) : list (nat * frame) :=
   match l with
   | [] => []
-  | LFrame c f _ :: l' => (c, f) :: frames_of l'
+  | LFrame c f _ _ :: l' => (c, f) :: frames_of l'
   | _ :: l' => frames_of l'
+  end.
+
+(** the send time stamps ([server_tx]) of the frames of a log, in emission order *)
+Fixpoint stamps_of (l : list log_entry) : list Z :=
+  match l with
+  | [] => []
+  | LFrame _ _ _ tx :: l' => tx :: stamps_of l'
+  | _ :: l' => stamps_of l'
   end.
 
 (** frames sent to one connection *)
